@@ -29,6 +29,7 @@ TRUSTED = [
     "C16 world model: contents are abstracted to version numbers (decoding is C06/C13's business); /proc/<pid>/stat is always readable; a gone process never comes back and a zombie never revives (PID reuse: C01/C02); a zombie's smaps and cmdline are empty files (measured, DESIGN A.8); smaps_rollup does not exist in the modelled world (the documented fallback to smaps is what is exercised)",
     "C16 concurrent model: one object's `_cache` (instantiated for the front-end object with 4 activations and for the platform object with 3); a front-end memoised method whose platform method is itself memoised is the composition of two instances and is exercised sequentially only; CPython executes each of LOAD_ATTR / BINARY_SUBSCR / STORE_SUBSCR / STORE_ATTR / DELETE_ATTR atomically under the GIL (free-threaded builds out of scope)",
     "C16 scheduler (harness/props/c16_sched.py): sys.settrace with f_trace_opcodes hands a baton between real threads at the shared-state bytecodes; the schedule space is sampled (quick) or enumerated for one plain call against one enter/exit pair (thorough)",
+    "C16 bounded-pre-emption explorer (harness/props/c16_preempt.py): model-independent; every bytecode of memoize_when_activated's closures, Process.oneshot and oneshot_enter/exit is a scheduling point; schedules with <= 2 pre-emptions (sampled in quick, all in thorough/search) and the 3-pre-emption schedules where a plain call straddles two program items of the block owner; oracle = the property's clauses on content versions (no spurious error; in-block value read in that block; plain value from the call's duration or an overlapping block)",
 ]
 MANIFEST = {
     "level_text": "Machine-checked Lean 4 proofs over a model of memoize_when_activated / oneshot() / as_dict(): for EVERY sequential history (enter, exit normally or by exception, nested blocks, calls, content changes, EACCES, zombie, gone, as_dict anywhere) the model refines a specification that freezes the first successful read of each block-cached source (C16_value_at_first_read), each of stat/status/smaps is read at most once per outermost block (C16_read_at_most_once), the next call after the block is fresh (C16_fresh_after_exit), nesting is a no-op (C16_nested_noop), as_dict validates before reading, returns exactly the requested keys and applies the AccessDenied/ZombieProcess/NoSuchProcess/NotImplementedError policy (C16_as_dict_*); and over ALL interleavings of any number of threads of a bytecode-granularity step model no AttributeError/KeyError escapes (C16_no_spurious_error) and every returned value was the source's content at an instant between the activation of the block whose cache served it (or the start of the call) and the return (C16_value_valid_at_some_moment). The literal cross-thread clause (valid at a moment of the call itself) is false of oneshot's design and is a recorded finding with a replayed schedule. The model is tied to the code by translator facts (decorator placement, activate/deactivate lists, nesting test, finally, wrapper shape, method→file map, as_dict policy) feeding the proof obligation cfg_good, and by differential runs of the real Process over a fake procfs with per-file open counting and of real threads under a deterministic bytecode scheduler.",
@@ -769,6 +770,10 @@ def correspond(ctx, res):
     finally:
         impl.close()
     c16_sched.correspond_concurrent(ctx, res)
+    # model-independent bounded-pre-emption exploration (the failing-input search when the bytecode scheduler drifts):
+    # a sample on every quick run, every schedule in the thorough tier and during a failing-input search
+    from harness.props import c16_preempt
+    c16_preempt.explore(ctx, res, full=(ctx.tier == "thorough" or ctx.budget_factor > 1), budget=120)
 
 
 def search(ctx, res, broken):
@@ -797,6 +802,8 @@ def _well_nested(h):
 
 def shrink(ctx, d):
     from harness.props import c16_sched
+    if "preempt" in d["input"]:
+        return d
     if "schedule" in d["input"]:
         return c16_sched.shrink(ctx, d)
     hist = d["input"].get("history")
@@ -816,6 +823,9 @@ def shrink(ctx, d):
 
 def replay(ctx, rp, res):
     from harness.props import c16_sched
+    if "preempt" in rp["input"]:
+        from harness.props import c16_preempt
+        return c16_preempt.replay(ctx, rp, res)
     if "schedule" in rp["input"]:
         return c16_sched.replay(ctx, rp, res)
     hist = rp["input"].get("history")
